@@ -451,27 +451,43 @@ def impl_expand(name, annots, args):
         return 'err', err_class(e)
 
 
+_PARSER = []
+
+
+def shared_parser():
+    """building the PLY tables costs ~4 ms; one parser instance serves every `michelson_to_micheline(text, parser)` call"""
+    from pytezos.michelson.parse import MichelsonParser
+    if not _PARSER:
+        _PARSER.append(MichelsonParser())
+    return _PARSER[0]
+
+
 def impl_parse(text):
     from pytezos.michelson.parse import MichelsonParserError, michelson_to_micheline
     try:
-        return 'ok', michelson_to_micheline(text)
+        return 'ok', michelson_to_micheline(text, parser=shared_parser())
     except MichelsonParserError:
         return 'err', 'assertion'
     except Exception as e:  # noqa
         return 'err', err_class(e)
 
 
+_REPL = []
+
+
 def impl_run(stack, macro_text):
-    """fresh REPL: PUSH the stack (last element first), run the macro text -> ('ok', stack) | ('failed', v) | ('err',) | ('rejected', class)"""
+    """REPL session reset to an empty stack: PUSH the stack (last element first) then the macro text, in one cell
+    -> ('ok', stack) | ('failed', v) | ('err',) | ('rejected', class)"""
     from pytezos.michelson.micheline import MichelsonRuntimeError
     from pytezos.michelson.parse import MichelsonParserError
     from pytezos.michelson.repl import Interpreter
-    it = Interpreter()
-    if stack:
-        r = it.execute(' ; '.join(f'PUSH {ty(v)} {lit(v)}' for v in reversed(stack)))
-        assert r.error is None, f'cannot set up stack {stack}: {r.error}'
+    if not _REPL:
+        _REPL.append(Interpreter())
+    it = _REPL[0]
+    it.reset()
+    cell = ' ; '.join([f'PUSH {ty(v)} {lit(v)}' for v in reversed(stack)] + [macro_text])
     try:
-        r = it.execute(macro_text)
+        r = it.execute(cell)
     except Exception as e:  # noqa — e.g. IndexError escaping the parser
         return ('rejected', err_class(e))
     if r.error is None:
@@ -633,7 +649,7 @@ def run(ctx):
 
     # ---- expansion correspondence + grammar oracle
     table_rx = [rx for rx, _ in real_macros.macros]
-    arg_pool = [michelson_to_micheline(t) for t in ARG_POOL_TEXT] + [{'prim': 'UNIT'}]
+    arg_pool = [michelson_to_micheline(t, parser=shared_parser()) for t in ARG_POOL_TEXT] + [{'prim': 'UNIT'}]
     names = name_universe(ctx, quick)
     xcases = []     # (name, annots, args)
     for nm in names:
@@ -812,7 +828,7 @@ def run(ctx):
 
     elines = []
     for nm, an, codes, st, fam, data in sem:
-        args = [michelson_to_micheline(CODE[k][0]) for k in codes]
+        args = [michelson_to_micheline(CODE[k][0], parser=shared_parser()) for k in codes]
         elines.append('E ' + ' '.join(call_tokens(nm, an, args) + mich.to_tokens([to_mich(v) for v in st])))
     emodel = ctx.model(elines)
     worst = {}
